@@ -86,14 +86,14 @@ type AllocInfo struct {
 }
 
 type State struct {
-	reach  string
-	cells  map[int]*Val
-	heap   map[string]string
-	epoch  int
-	leaked map[int]bool      // locals whose address escaped on the paths leading here
-	pub    map[int]*Val      // content of a local as last copied into the heap (nil entry: not current)
-	lastRes map[string]*Val // ghost: callee name -> result of the most recent call on this path
-	called map[string]string // ghost: callee name -> Bool term "a call to it was executed on the way here"
+	reach   string
+	cells   map[int]*Val
+	heap    map[string]string
+	epoch   int
+	leaked  map[int]bool      // locals whose address escaped on the paths leading here
+	pub     map[int]*Val      // content of a local as last copied into the heap (nil entry: not current)
+	lastRes map[string]*Val   // ghost: callee name -> result of the most recent call on this path
+	called  map[string]string // ghost: callee name -> Bool term "a call to it was executed on the way here"
 }
 
 func (s *State) clone() *State {
